@@ -139,6 +139,21 @@ func (x *xl) lessOf(t types.Type) string {
 	return ""
 }
 
+// args of a call of a package function: the extra arguments of a variadic function are packed
+// into one slice, as the callee sees them
+func (x *xl) callArgs(fn *types.Func, c *ast.CallExpr) []string {
+	out := x.exprs(c.Args)
+	sig, ok := fn.Type().(*types.Signature)
+	if !ok || !sig.Variadic() || c.Ellipsis.IsValid() {
+		return out
+	}
+	n := sig.Params().Len() - 1
+	if len(out) < n {
+		return out
+	}
+	return append(append([]string{}, out[:n]...), "(EList "+list(out[n:])+")")
+}
+
 func (x *xl) exprs(es []ast.Expr) []string {
 	out := make([]string, len(es))
 	for i, e := range es {
@@ -317,7 +332,7 @@ func (x *xl) call(c *ast.CallExpr) string {
 		}
 		if fn, ok := info.Uses[f].(*types.Func); ok {
 			x.need(fn)
-			return "(ECall " + q(fname(fn.Origin())) + " " + list(x.exprs(c.Args)) + ")"
+			return "(ECall " + q(fname(fn.Origin())) + " " + list(x.callArgs(fn, c)) + ")"
 		}
 		// a function value held in a variable
 		return "(ECallV " + x.expr(f) + " " + list(x.exprs(c.Args)) + ")"
@@ -327,8 +342,23 @@ func (x *xl) call(c *ast.CallExpr) string {
 			if pn, ok := info.Uses[id].(*types.PkgName); ok {
 				full := pn.Imported().Name() + "." + f.Sel.Name
 				switch full {
-				case "errors.New", "strings.HasPrefix", "strings.TrimPrefix", "strconv.Itoa", "slices.Clone":
+				case "errors.New", "strings.HasPrefix", "strings.TrimPrefix", "strconv.Itoa", "slices.Clone",
+					"strconv.Atoi", "strconv.Quote":
 					return "(ECall " + q(full) + " " + list(x.exprs(c.Args)) + ")"
+				case "strings.Split":
+					// only the separator "," is a primitive
+					if tv := info.Types[c.Args[1]]; tv.Value != nil && tv.Value.Kind() == constant.String && constant.StringVal(tv.Value) == "," {
+						return "(ECall \"strings.SplitComma\" [" + x.expr(c.Args[0]) + "])"
+					}
+					return x.unknown(c)
+				case "strings.Replace":
+					// only "replace the first occurrence"
+					if tv := info.Types[c.Args[3]]; tv.Value != nil && tv.Value.Kind() == constant.Int {
+						if n, ok := constant.Int64Val(tv.Value); ok && n == 1 {
+							return "(ECall \"strings.ReplaceFirst\" " + list(x.exprs(c.Args[:3])) + ")"
+						}
+					}
+					return x.unknown(c)
 				case "set.Make":
 					return "(ECall \"set.Make\" " + list(x.exprs(c.Args)) + ")"
 				case "fmt.Sprintf":
@@ -351,7 +381,18 @@ func (x *xl) call(c *ast.CallExpr) string {
 			return x.unknown(c)
 		}
 		recvT := sel.Recv()
+		// a pointer-receiver method called on an addressable VALUE takes its address: the callee's
+		// writes must reach the caller's variable, which this value-passing translation would lose
+		if sig, ok := fn.Type().(*types.Signature); ok && sig.Recv() != nil && fn.Pkg() == x.p.Types {
+			_, recvIsPtr := sig.Recv().Type().(*types.Pointer)
+			_, argIsPtr := info.TypeOf(f.X).Underlying().(*types.Pointer)
+			if recvIsPtr && !argIsPtr {
+				return "(EUnknown " + q("address of a value taken for the pointer-receiver call "+x.src(c)) + ")"
+			}
+		}
 		switch {
+		case fn.Pkg() != nil && fn.Pkg().Path() == "reflect" && fn.Name() == "Lookup" && len(c.Args) == 1:
+			return "(ECall \"reflect.Lookup\" [" + x.expr(f.X) + "; " + x.expr(c.Args[0]) + "])"
 		case fn.Pkg() != nil && fn.Pkg().Path() == "go/types":
 			if len(c.Args) == 0 {
 				return "(EField " + x.expr(f.X) + " " + q(fn.Name()+"()") + ")"
@@ -363,7 +404,7 @@ func (x *xl) call(c *ast.CallExpr) string {
 			return "(ECall \"set.Add\" " + list(append([]string{x.expr(f.X)}, x.exprs(c.Args)...)) + ")"
 		case fn.Pkg() == x.p.Types:
 			x.need(fn)
-			return "(ECall " + q(fname(fn.Origin())) + " " + list(append([]string{x.expr(f.X)}, x.exprs(c.Args)...)) + ")"
+			return "(ECall " + q(fname(fn.Origin())) + " " + list(append([]string{x.expr(f.X)}, x.callArgs(fn, c)...)) + ")"
 		}
 	}
 	return x.unknown(c)
@@ -605,7 +646,7 @@ func main() {
 			}
 		}
 	}
-	for _, root := range []string{"createSorterDesc", "SortFieldDescs.Validate", "SorterDesc.PriorityTree", "CompareLine.String"} {
+	for _, root := range []string{"createSorterDesc", "SortFieldDescs.Validate", "SorterDesc.PriorityTree", "CompareLine.String", "sortFieldDescFromTag"} {
 		fn := byName[root]
 		if fn == nil {
 			fmt.Fprintln(os.Stderr, "xlate_gsort_go: function not found:", root)
